@@ -113,3 +113,21 @@ def run(F, R):
             res = mode_reachable(b, [c.bb])
             ok = ok and len(res[c.bb]) == 9
         R.check(ok, "R19.3", key + ":__typename-ungated", b.where(), "__typename test reachable under all 9 mode pairs", "__typename is gated by an introspection mode")
+
+    R.rule("R19.4", "the gate cannot be bypassed: within the impls for QueryRoot<T>, the wrapped root's own ContainerType methods (resolve_field, find_entity, "
+                    "collect_all_fields) are called only from QueryRoot::resolve_field, where R19.2 decides the mode guard — no other method of the wrapper (e.g. a "
+                    "collect_all_fields override used for `... on Query { .. }` fragments) forwards to the inner root")
+    n4 = 0
+    for b in F.bodies.values():
+        if not b.defp.startswith("async_graphql::types::query_root::") or "QueryRoot<" not in (b.impl_self or ""):
+            continue
+        for c in b.calls():
+            d_ = c.declared or ""
+            if re.search(r"ContainerType::(resolve_field|find_entity|collect_all_fields)$", d_) and "QueryRoot" not in (c.self_ty or ""):
+                n4 += 1
+                in_gate = re.search(r"::resolve_field(::\{closure#\d+\})*$", b.defp) is not None
+                key = re.sub(r"\{closure#\d+\}", "{c}", re.sub(r"\{impl#\d+\}", "{impl}", b.defp.replace("async_graphql::types::query_root::", "")))
+                R.check(in_gate, "R19.4", "inner-root-called-from:%s:%s" % (key, d_.split("::")[-1]), c.where(), "inside QueryRoot::resolve_field",
+                        "%s forwards to the wrapped root's %s outside QueryRoot::resolve_field: fields reached that way (fragments with the root type as condition) skip the "
+                        "introspection-only gate and the special handling of _entities/_service/__schema/__type" % (b.name, d_.split("::")[-1]))
+    R.floor("R19.4", "calls into the wrapped root from QueryRoot", n4, 2)
